@@ -303,6 +303,21 @@ func headersString(h map[string][]string, skipCORS bool) string {
 	return sb.String()
 }
 
+// keepsHeaders reports whether every non-CORS header of the response without the filter is on
+// the response with the filter, with the same values. For a granted request the statements
+// name the CORS headers that are added; they do not forbid a companion such as Vary: Origin.
+func keepsHeaders(with, without map[string][]string) bool {
+	for k, v := range without {
+		if strings.HasPrefix(k, "Access-Control-") {
+			continue
+		}
+		if strings.Join(with[k], "|") != strings.Join(v, "|") {
+			return false
+		}
+	}
+	return true
+}
+
 func checkCORS(c CORSCase, property string) (vs []*Violation) {
 	st := stats.For(property, "Test"+property)
 	spec := c.Spec
@@ -462,7 +477,7 @@ func checkCORS(c CORSCase, property string) (vs []*Violation) {
 			} else {
 				labels = append(labels, "actual_request")
 				// the chain continues exactly as without the filter, plus the actual-request headers once each
-				if o.Status != tw.Status || string(o.Body) != string(tw.Body) || strings.Join(o.Ran, ",") != strings.Join(tw.Ran, ",") || headersString(o.Header, true) != headersString(tw.Header, true) {
+				if o.Status != tw.Status || string(o.Body) != string(tw.Body) || strings.Join(o.Ran, ",") != strings.Join(tw.Ran, ",") || !keepsHeaders(o.Header, tw.Header) {
 					vs = append(vs, viol("", "%s: actual request is not processed as without the filter: with{status=%d ran=%v body=%q} without{status=%d ran=%v body=%q}", where, o.Status, o.Ran, o.Body, tw.Status, tw.Ran, tw.Body))
 				}
 				want := map[string]string{"Access-Control-Allow-Origin": r.Origin}
